@@ -729,16 +729,32 @@ class ConsumingLoop:
             k += 1
         return k
 
+    @staticmethod
+    def _one_char_slice(sl):
+        """buffer[a:a+1] reads the character at a (or nothing, silently, when a is beyond the buffer)."""
+        if not (isinstance(sl, ast.Slice) and sl.lower is not None and sl.upper is not None and sl.step is None):
+            return None
+        lo, hi = linear_form(sl.lower), linear_form(sl.upper)
+        if lo is None or hi is None:
+            return None
+        d = dict(hi)
+        for k, v in lo.items():
+            d[k] = d.get(k, 0) - v
+        d = {k: v for k, v in d.items() if v != 0}
+        return sl.lower if d == {'': 1} else None
+
     def is_buffer_read(self, e, node):
-        return isinstance(e, ast.Subscript) and isinstance(e.ctx, ast.Load) and not isinstance(e.slice, ast.Slice) \
-            and alias_of_self_attr(self.flow, e.value, node, 'buffer')
+        if not (isinstance(e, ast.Subscript) and isinstance(e.ctx, ast.Load) and alias_of_self_attr(self.flow, e.value, node, 'buffer')):
+            return False
+        return not isinstance(e.slice, ast.Slice) or self._one_char_slice(e.slice) is not None
 
     def read_offset(self, e, node):
         """e (evaluated at node) reads buffer[pointer + k]: the offset of that character from the iteration's start"""
         if not self.is_buffer_read(e, node):
             return None
         ptr = '%s.pointer' % self_name(self.f)
-        lf = linear_form(e.slice)
+        idx = self._one_char_slice(e.slice) if isinstance(e.slice, ast.Slice) else e.slice
+        lf = linear_form(idx)
         if lf is None or lf.get(ptr) != 1 or set(_clean(lf)) - {ptr, ''}:
             return None
         if node not in self.in_iter:
